@@ -152,11 +152,11 @@ Section WithClen.
     Good im c evs st'.
   Proof.
     intros Hb Hwf Hex. destruct s as [pre bs | ord | i | pre bs ord i | rot | ord]; cbn [exec_sev step_wf] in *.
-    - apply andb_prop in Hwf as [Hpre Hcm]. rewrite (pre_okb_is_cat _ _ Hpre) in Hex.
+    - apply andb_prop in Hwf as [Hpre Hcm]. rewrite (pre_okb_is_pre _ _ Hpre) in Hex.
       inversion Hex; subst. eapply good_enqueue; eassumption.
     - eapply good_flush; eassumption.
     - inversion Hex; subst. eapply good_ack; eassumption.
-    - apply andb_prop in Hwf as [Hpre Hcm]. rewrite (pre_okb_is_cat _ _ Hpre) in Hex.
+    - apply andb_prop in Hwf as [Hpre Hcm]. rewrite (pre_okb_is_pre _ _ Hpre) in Hex.
       destruct (flush clen (apply_events im pre) _ ord) as [[evs1 st1]| |] eqn:Efl; try discriminate.
       inversion Hex; subst. eapply Good_seq; [eapply good_enqueue; eassumption|].
       intros old1 segs1 cur1 Hb1. eapply Good_seq; [eapply good_flush; eassumption|].
